@@ -49,7 +49,31 @@ func e1prop(profile string, quick, thorough int, rule string, expect ...string) 
 
 const e1Case = "one case = one seeded run of a 2-4 node Sia network (swarm-drawn network parameters, eras, fault kinds, workload mix); distinct = distinct SHA-256 of the event log; "
 
+var e2Components = map[string]string{
+	"gateway handshake, RPC framing and limits; rhp/v2 encrypted transport; rhp/v3 stream framing; rhp/v4 request/response framing; all RPC object codecs": "real (go.sia.tech/core/gateway, rhp/v2, rhp/v3, rhp/v4)",
+	"rhp/v2 and rhp/v4 Merkle builders and verifiers, blake2b (AVX2 and generic paths)":                                                                    "real",
+	"stream multiplexer under gateway and RHP3":                                      "real dependency go.sia.tech/mux v1.5.3 inside the bubble (not under test)",
+	"byte-stream connection, chunking, delays, stalls, bit flips, truncation, reset": "simulated, owned by the seeded lock-step scheduler",
+	"clock": "testing/synctest bubble clock (Go 1.26.8)",
+	"renter / host / peer endpoints, scripts": "stub tasks calling the real transports",
+	"RefMerkle": "independent model in /verif/ref",
+}
+
+var e2Assumptions = []string{
+	"sampling, not enumeration",
+	"between two quiescent points goroutines run under the Go scheduler; the history is independent of that interleaving (checked by the determinism self-test)",
+	"key-exchange randomness only influences ciphertext, which never enters the event log",
+	"frame integrity of mux-carried traffic (gateway, RHP3) is the multiplexer's job; it is observed through the equality oracle, the exact tamper-detection oracle applies to RHP2",
+}
+
 var props = map[string]prop{
+	"C19": {
+		Parts:          []part{{Engine: "E2", Pkg: "sess", Profile: "C19", QuickRuns: 4000, QuickBudgetS: 40, ThoroughRuns: 120000, ThoroughBudgetS: 900}},
+		Rule:           "one case = one seeded session of two endpoint tasks over the simulated connection inside a synctest bubble: RHP4 request/response scripts (every object type filled by reflection from the tape, error responses, follow-up messages, objects at MaxSectorBatchSize / MaxAccountBatchSize, free-sector proofs from the real builder for valid requests, over-limit objects), RHP2 encrypted transport (handshake, every ProtocolObject, RawResponse/VerifyTag path, wrong host key, over-limit), RHP3 over the real mux, gateway Dial/Accept with matching and mismatching headers and every gateway.Object; per session one chunking mode (all / random / small / byte) and at most one fault (bit flip at an offset, truncate-and-close, stall until deadlines fire). Oracles: what is read equals what was written, in order; valid messages within limits are readable; reads never consume more than the receiver's limit; error responses arrive as that error; an RHP2 frame with a flipped bit is never accepted; mismatching handshakes are refused. Non-trivial = bytes were delivered.",
+		Assumptions:    e2Assumptions,
+		Components:     e2Components,
+		ExpectCounters: []string{"session.rhp4", "session.rhp4-maxima", "session.rhp4-free-sectors", "session.rhp4-overlimit", "session.rhp2", "session.rhp2-overlimit", "session.rhp2-wrongkey", "session.rhp3", "session.rhp3-wrongkey", "session.gateway", "session.gateway-mismatch-genesis", "session.gateway-mismatch-unique-id", "fault.bitflip", "fault.truncate-close", "fault.stall", "rhp2.raw-response-verified", "rpc4.error-delivered", "rpc4.maxima-delivered"},
+	},
 	"C05": e1prop("C05", 240, 6000, e1Case+"accumulator-stress profile (many outputs, 2-4 light clients, forced partitions and stale mining). After every applied/reverted block: accumulator leaf count and roots = naive forest over all leaves ever added; every stored and every light-client proof verifies and equals the forest path; leaf indices equal the forest's. Non-trivial = light clients verified at least one proof after an update.",
 		"reach.reorg", "reach.light-revert", "reach.light-spent-verified", "probe.light.verified"),
 	"C06": e1prop("C06", 240, 6000, e1Case+"reorg-heavy profile. On every revert: RevertBlock's diffs are the reverse of ApplyBlock's; the store (ids, fields, leaf indices, proofs) equals its digest from before the block was applied and the reference ledger of the parent; every element verifies against the parent state; on re-apply state encoding and diffs are byte-identical to the first apply. Non-trivial = at least one revert with non-empty diffs.",
